@@ -15,7 +15,12 @@ Oracle (property text only): the same (program, seed, configuration) is run (a) 
        The allocation history of every second / fresh / restored run is PERTURBED (h_c17 --perturb: blocks of fiber-object
        size are allocated and freed in a seeded random order first, so fiber objects get addresses unrelated to their
        creation order), and many programs let several fibers sleep until ONE common absolute deadline, entered in an
-       order that differs from the creation order: a wake-up order that depends on addresses diverges."""
+       order that differs from the creation order: a wake-up order that depends on addresses diverges.
+       Clients also draw from yaclib_std::random_device (fresh per use, one per fiber, a long-lived one with reset()), log
+       the values and let them steer yields / locks / log contents; the reference for a device's stream is
+       mt19937_64(seed) (to_coq expands it), so a stream that depends on anything else (fiber ids, ...) disagrees with
+       the model in a single run and diverges in the same-process and restored differentials (fibers are created
+       before every compared part, so the process-wide id counter differs)."""
 import concurrent.futures, json, os, random, re, subprocess
 import vlib, runner
 
@@ -37,8 +42,11 @@ def gen_body(rng, st, depth, allow_untimed):
         r = rng.random()
         if r < 0.22:
             ops.append(("a",))
-        elif r < 0.34:
+        elif r < 0.31:
             ops.append(("w",))
+        elif r < 0.34:
+            # values from yaclib_std::random_device steer the fiber (fresh device / the fiber's own device)
+            ops.append(("R", rng.choice([2, 3])) if depth >= 1 and rng.random() < 0.5 else ("r", rng.choice([2, 3, 4])))
         elif r < 0.40:
             ops.append(("y",))
         elif r < 0.47:
@@ -114,7 +122,9 @@ def gen_program(rng, phases, allow_untimed=False, detach=False):
             kids.append(sl)
             if rng.random() < 0.3:
                 ops.append(rng.choice([("a",), ("y",), ("w",)]))
-        ops += [o for o in gen_body(rng, st, 2, False) if o[0] not in ("f", "j")]
+        ops += [o for o in gen_body(rng, st, 0, False) if o[0] not in ("f", "j")]
+        if rng.random() < 0.4:
+            ops.append(("G",))
         if allow_untimed:
             # wake whoever may still be parked on a condition variable / bare queue, a few times
             for _ in range(2):
@@ -135,7 +145,7 @@ def to_text(ops):
     out = []
     for o in ops:
         k = o[0]
-        if k in "awype":
+        if k in "awypeG":
             out.append(k)
         elif k == "f":
             out.append("f%d(%s)" % (o[1], to_text(o[2])))
@@ -144,10 +154,28 @@ def to_text(ops):
     return " ".join(out)
 
 
-def to_coq(ops):
+def to_coq(ops, dev=None):
+    """Sched.cmd list of a fiber body.  dev = raw outputs of mt19937_64(seed): the stream of every
+    yaclib_std::random_device (a function of the seed alone).  This is the reference for the device: the values the
+    client draws, and the steering they cause, are expanded here into plain commands (r: a fresh device, first output;
+    R: the fiber's own device, k-th output at its k-th use in this body; G: the driver's device after reset())."""
     out = []
+    mine = 0
     for o in ops:
         k = o[0]
+        if k == "r":
+            v = dev[0]
+            out += ["CLogVal %d" % v] + ["CYield"] * (v % o[1])
+            continue
+        if k == "R":
+            v = dev[mine]
+            mine += 1
+            out += ["CLogVal %d" % v, "CLock %d" % (v % o[1]), "CAtomic", "CUnlock %d" % (v % o[1])]
+            continue
+        if k == "G":
+            v = dev[0]
+            out += ["CLogVal %d" % v] + ["CAtomic"] * (v % 3)
+            continue
         out.append({
             "a": lambda: "CAtomic", "w": lambda: "CCasW", "y": lambda: "CYield", "p": lambda: "CPhase",
             "e": lambda: "CEpoch", "S": lambda: "CSleepUntil %d" % o[1], "U": lambda: "CQWaitUntil %d %d" % (o[1], o[2]),
@@ -157,7 +185,7 @@ def to_coq(ops):
             "n": lambda: "CCvNotifyOne %d" % o[1], "N": lambda: "CCvNotifyAll %d" % o[1],
             "q": lambda: "CQWait %d" % o[1], "Q": lambda: "CQWaitFor %d %d" % (o[1], o[2]),
             "k": lambda: "CQNotifyOne %d" % o[1], "K": lambda: "CQNotifyAll %d" % o[1],
-            "f": lambda: "CSpawn %d %s" % (o[1], to_coq(o[2])), "j": lambda: "CJoin %d" % o[1],
+            "f": lambda: "CSpawn %d %s" % (o[1], to_coq(o[2], dev)), "j": lambda: "CJoin %d" % o[1],
             "d": lambda: "CDetach %d" % o[1],
         }[k]())
     return "[" + "; ".join(out) + "]"
@@ -193,6 +221,10 @@ HAND_PROGRAMS = [
     # sleep_for calls that end at the same instant (durations chosen against the tick) next to sleep_until
     ("until-for", "e f0(S200 a) f1(s10 S200 a) f2(y S200) s40 s40 s40 s40 s500 j0 j1 j2"),
     ("until-phases", "e f0(s40 S300 a) f1(S300 a) f2(s20 S300) j0 j1 j2 p e f3(s60 S400 a) f4(s20 S400 a) f5(S400 w) j3 j4 j5 p e f6(a S200) f7(S200 a) f8(y S200 a) j6 j7 j8"),
+    # clients steered by yaclib_std::random_device: fresh devices (r), a fiber's own long-lived device (R), the driver's
+    # device with reset() (G); fibers are created before every compared part, so the process-wide id counter differs
+    ("rdev", "f0(r3 R3 a R3) f1(R2 r2 R2 w) f2(r3 r3) G a j0 j1 j2 p G f3(R3 R3 R3) f4(r2 R3) r3 j3 j4 p f5(r3 R2) f6(R3) G j5 j6"),
+    ("rdev-many", "f0(R3) f1(R3) f2(R3) f3(R3 R3) f4(r4 R2) r4 G j0 j1 j2 j3 j4 p f5(R3 r2) f6(r3 R3) G r2 j5 j6"),
     # phases with checkpoints
     ("phases", "f0(a w a)f1(a s30 a) a w j0 j1 p f2(l0 a u0 w)f3(l0 w u0) y j2 j3 p f4(Q1,20)f5(s10 k1) j4 j5 p a w a"),
 ]
@@ -236,9 +268,9 @@ def parse_text(text):
             if ch == ")":
                 break
             pos += 1
-            if ch in "awype":
+            if ch in "awypeG":
                 out.append((ch,))
-            elif ch in "sSlunNqkKjd":
+            elif ch in "sSrRlunNqkKjd":
                 out.append((ch, num()))
             elif ch in "cQU":
                 a = num(); pos += 1; b = num()
@@ -283,7 +315,7 @@ def cmdline(exe, args):
     return " ".join([exe] + ["'%s'" % a if (" " in a or "(" in a) else a for a in args])
 
 
-_ID = re.compile(r"^([RBEctx])(\d+)(.*)$")
+_ID = re.compile(r"^([RBEctxv])(\d+)(.*)$")
 
 
 def canon_segment(tokens, start, base=0):
@@ -371,6 +403,9 @@ def impl_numbers(tokens):
         elif c == "c":
             m = re.match(r"c(\d+):(\d)$", t)
             out += [6, int(m.group(1)), int(m.group(2))]
+        elif c == "v":
+            m = re.match(r"v(\d+):(\d+)$", t)
+            out += [10, int(m.group(1)), int(m.group(2))]
         elif c == "t":
             m = re.match(r"t(\d+):(\d)$", t)
             out += [7, int(m.group(1)), int(m.group(2))]
@@ -508,7 +543,7 @@ def main(ck):
             if pa[-3:] == tail:
                 c["tokens"] = pa[:-3] + ["!CRASH8"]
                 c["crashed"] = True
-                need_draws[c["cfg"]["seed"]] = max(need_draws.get(c["cfg"]["seed"], 0), sum(1 for t in pa if t[0] == "D") + 8)
+                need_draws[c["cfg"]["seed"]] = max(need_draws.get(c["cfg"]["seed"], 0), sum(1 for t in pa if t[0] == "D") + 8, 64)
             else:
                 add_hit("%s: harness crashed in an unexpected place: ... %s" % (c["name"], " ".join(pa[-12:])), "crash",
                         dict(harness="h_c17", commands=[cmdline(exe, c["base"])]))
@@ -534,7 +569,7 @@ def main(ck):
             add_hit("%s: GetFaultRandomCount() at the end differs between runs of the same seed: %s %s %s" % (
                 c["name"], rows[0]["rand_end"], rows[1]["rand_end"], c["rows_fresh"][0]["rand_end"]),
                 "restore-absolute-count", dict(harness="h_c17", kind="(n) final GetFaultRandomCount() of the two runs in one process and of the fresh process", commands=[cmd, cmdline(exe, c["base"])]))
-        need_draws[c["cfg"]["seed"]] = max(need_draws.get(c["cfg"]["seed"], 0), rows[0]["rand_end"] + 8)
+        need_draws[c["cfg"]["seed"]] = max(need_draws.get(c["cfg"]["seed"], 0), rows[0]["rand_end"] + 8, 64)
         c["tokens"] = t0
 
     # (c) restore from every recorded pair (fresh process), DSL programs with phases
@@ -592,7 +627,7 @@ def main(ck):
     def add_term(c, tokens, ops, mode, t0, d, rc0, inj0, row, what):
         dl = draws[c["cfg"]["seed"]][:(row["rand_end"] if row else sum(1 for t in tokens if t[0] == "D")) + 8]
         terms.append("obs_N %s [%s] %d %d %d %d %d 200000 %s" % (
-            cfg_term(c["cfg"]), "; ".join(str(x) for x in dl), mode, t0, d, rc0, inj0, to_coq(ops)))
+            cfg_term(c["cfg"]), "; ".join(str(x) for x in dl), mode, t0, d, rc0, inj0, to_coq(ops, draws[c["cfg"]["seed"]])))
         metas.append(dict(case=c, tokens=tokens, row=row, what=what))
 
     for c in cases:
@@ -694,7 +729,7 @@ def main(ck):
         ck.broken.append(dict(name="correspondence Sched.run vs implementation", detail="no traces"))
 
     # ---------------------------------------------------------------- B. real clients: oracle only
-    clients = ["pool", "strand", "timed", "coro", "until", "mix"]
+    clients = ["pool", "strand", "timed", "coro", "until", "rand", "mix"]
     n_cl = 12 if quick else 150
     ccfgs = configs(rng, n_cl, loops=True)
     cl_cases = [dict(client=clients[i % len(clients)], size=rng.randint(0, 3), cfg=ccfgs[i],
@@ -776,6 +811,12 @@ def main(ck):
     def has_common(ops):
         return any(o[0] in "SUT" or (o[0] == "f" and has_common(o[2])) for o in ops)
     ck.cov["observed"]["programs_with_fibers_sleeping_until_one_common_deadline"] = sum(1 for c in cases if has_common(c["ops"]))
+    def has_dev(ops):
+        return any(o[0] in "rRG" or (o[0] == "f" and has_dev(o[2])) for o in ops)
+    ck.cov["observed"]["programs_drawing_from_random_device"] = sum(1 for c in cases if has_dev(c["ops"]))
+    ck.cov["random_device"] = ("predicted, not only observed: every value a DSL client draws from yaclib_std::random_device is "
+                               "compared with mt19937_64(seed) through the model (CLogVal + the steering it causes); the real "
+                               "client `rand` (and `mix`) is compared in the three differentials only")
     ck.cov["allocation_history_perturbed"] = ("yes: --perturb <k> before the second in-process run, in the fresh process and in every "
                                               "restored run (DSL programs and real clients); the original run is unperturbed")
     ck.cov["exhaustive"] = False
@@ -783,8 +824,8 @@ def main(ck):
                       "fault frequency, CAS-failure frequency, pick width, tick length, sleep time) tuples drawn from ck.seed: "
                       "6 hand-written + random DSL programs (1-3 phases, up to ~12 fibers: atomics, weak CAS, yields, sleeps, mutex "
                       "sections, condition-variable waits/timed waits/notifies, bare FiberQueue waits, nested spawn/join/detach) "
-                      "and 6 real clients (FairThreadPool jobs, Strand, WaitFor + condition_variable::wait_for, coroutines with "
-                      "yaclib::Mutex, threads sleeping until one common deadline, mix); sleep_until / wait_until on a common absolute "
+                      "and 7 real clients (FairThreadPool jobs, Strand, WaitFor + condition_variable::wait_for, coroutines with "
+                      "yaclib::Mutex, threads sleeping until one common deadline, a randomised workload steered by yaclib_std::random_device, mix); sleep_until / wait_until on a common absolute "
                       "deadline (epoch + D) in the DSL; perturbed allocation history in all second/fresh/restored runs; each run twice in a process, in a fresh process and restored from every recorded "
                       "pair; distinct non-trivial = distinct canonical token sequences with >= 3 resumes of >= 2 fibers")
     ck.cov["samples"] = [dict(program=to_text(m["case"]["ops"]), config=m["case"]["cfg"], place=m["case"]["place"],
